@@ -255,7 +255,7 @@ def gen_spec(rng, nprod=None, shape=None):
             add(p, p["name"])                           # self dependency
     if shape in ("twover", "mixed"):
         # make somebody reach two versions of one product, directly or through different children
-        for nm in list(two):
+        for nm in sorted(two):
             i = idx[nm]
             earlier = [p for p in prods if idx[p["name"]] < i]
             if len(earlier) >= 1:
@@ -286,3 +286,58 @@ def gen_spec(rng, nprod=None, shape=None):
     rng.shuffle(prods)                                  # declaration order is not graph order
     spec = {"products": prods, "shape": shape}
     return normalise(spec)
+
+
+# ------------------------------------------------------------------------ running many stacks in parallel
+
+def run_parallel(fn, items, nproc=None, timeout=None):
+    """fn(chunk_of_items) -> list of results (one per item), evaluated in up to nproc forked children
+    (each child may wreck os.environ and the eups singletons).  Returns the results in item order; a
+    child that died yields {"child_error": ...} for each of its items."""
+    import json
+    import traceback
+    nproc = max(1, min(nproc or min(16, os.cpu_count() or 4), len(items) or 1))
+    chunks = [items[i::nproc] for i in range(nproc)]
+    procs = []
+    for ch in chunks:
+        r, w = os.pipe()
+        pid = os.fork()
+        if pid == 0:
+            code = 0
+            try:
+                os.close(r)
+                for (_, orr) in procs:
+                    try:
+                        os.close(orr)
+                    except OSError:
+                        pass
+                try:
+                    res = ["ok", fn(ch)]
+                except BaseException as e:  # noqa
+                    res = ["exc", type(e).__name__, str(e)[:1000], traceback.format_exc()[-3000:]]
+                with os.fdopen(w, "wb") as f:
+                    f.write(json.dumps(res).encode())
+            except BaseException:  # noqa
+                code = 3
+            finally:
+                os._exit(code)
+        os.close(w)
+        procs.append((pid, r))
+    outs = []
+    for (pid, r), ch in zip(procs, chunks):
+        with os.fdopen(r, "rb") as f:
+            data = f.read()
+        os.waitpid(pid, 0)
+        try:
+            res = json.loads(data.decode()) if data else ["died"]
+        except ValueError:
+            res = ["died"]
+        if res[0] == "ok" and len(res[1]) == len(ch):
+            outs.append(res[1])
+        else:
+            outs.append([{"child_error": res[:3] + [str(res[3])[-1500:]] if len(res) > 3 else res}] * len(ch))
+    merged = [None] * len(items)
+    for k, o in enumerate(outs):
+        for j, x in enumerate(o):
+            merged[k + j * nproc] = x
+    return merged
